@@ -2,7 +2,7 @@
 import concurrent.futures, sys
 import vlib
 
-HARNESSES = ["h_rc"]
+HARNESSES = ["h_rc", "h_pid", "h_mutex"]
 
 
 def main():
